@@ -12,7 +12,7 @@ import (
 func init() {
 	register(&propInfo{
 		id: "C04", fn: checkC04, multiConfig: true,
-		explanation: "The session model's transition guards are per-request facts, so the history quantifier is discharged handler by handler: (r1) every fid field of a request that names an existing fid goes through LookupFID whose miss branch returns EBADF before anything with an effect (no backend call, InsertFID or DeleteFID may precede that exit), every backend receiver derives from such a lookup, and destination fids are only given to InsertFID; (r2) every exit of tclunk.handle, and every exit of tremove.handle after its lookup, has passed DeleteFID; (r3) every InsertFID is reached only when the operation that produced the new reference succeeded, all exits after it are success replies, InsertFID itself releases a replaced binding, tlcreate rebinds its own fid to an opened literal; (r4) the guard table of the property (opened / mode / type checks with their errnos, xattr sub-protocol switch, CanOpen's exact set, Tauth ENOSYS, auth fid EINVAL) is a subset of the guards that dominate each backend call, with the prescribed errno on the guard's exit; (r5) opened/openFlags are written only on the success side of Open and in the create literal.",
+		explanation: "The session model's transition guards are per-request facts, so the history quantifier is discharged handler by handler: (r1) every fid field of a request that names an existing fid goes through LookupFID whose miss branch returns EBADF before anything with an effect (no backend call, InsertFID or DeleteFID may precede that exit), every backend receiver derives from such a lookup, and destination fids are only given to InsertFID; (r2) every exit of tclunk.handle, and every exit of tremove.handle after its lookup, has passed DeleteFID; (r3) every InsertFID is reached only when the operation that produced the new reference succeeded, all exits after it are success replies, InsertFID itself releases a replaced binding, tlcreate rebinds its own fid to an opened literal; (r4) the guard table of the property (opened / mode / type checks with their errnos, xattr sub-protocol switch, CanOpen's exact set, Tauth ENOSYS, auth fid EINVAL) is a subset of the guards that dominate each backend call, with the prescribed errno on the guard's exit; (r5) opened/openFlags are written only on the success side of Open and in the create literal. (r6) handlers act on the request that was sent: decoders overwrite every field and reset every list of recycled message objects (the rule of C18.r1).",
 		assumptions: []string{"guards are recognised as path facts over resolved expressions; a guard rewritten in an unrecognised but equivalent form is reported (fail-closed)", "the fid table is a Go map under fidMu (its locking is C16's business)"},
 	})
 }
@@ -329,6 +329,23 @@ func checkC04(r *Run) {
 			if !ok || !types.Identical(info.TypeOf(cl), fidRefT) {
 				return true
 			}
+			// an xattr fid stays inside its own sub-protocol because it has no file type: the
+			// guards of open/walk/create/readdir refuse a reference whose mode is zero
+			hasXattr, modeKV := false, (*ast.KeyValueExpr)(nil)
+			for _, el := range cl.Elts {
+				if kv, ok := el.(*ast.KeyValueExpr); ok {
+					switch kv.Key.(*ast.Ident).Name {
+					case "pendingXattr":
+						hasXattr = true
+					case "mode":
+						modeKV = kv
+					}
+				}
+			}
+			if hasXattr {
+				r.check(modeKV == nil, "r5", fi.Key+": an xattr fid has no file type", cl.Pos(), "the reference created for a pending xattr operation leaves mode at zero",
+					"the reference of an xattr fid is given a file type: Tlopen, Twalk, Tmkdir ... on the xattr fid pass their type guards and reach the backend instead of being refused")
+			}
 			for _, el := range cl.Elts {
 				kv, ok := el.(*ast.KeyValueExpr)
 				if !ok {
@@ -341,6 +358,13 @@ func checkC04(r *Run) {
 			}
 			return true
 		})
+	}
+
+	// r6: the request a handler acts on is the request that was sent: every decoder assigns
+	// every field and resets every list of the recycled message object (the rule of C18.r1) -
+	// a zero-name Twalkgetattr that keeps an earlier request's names walks instead of cloning
+	if r.borrowed == nil {
+		r.borrow(checkC18, map[string]string{"r1": "r6"})
 	}
 }
 
